@@ -16,7 +16,7 @@ Import ListNotations.
 """
 
 # parameter values outside the documented domain of a method (their rejection is C15's business)
-OUT_OF_RANGE = {('mormol', ('smooth_half_window', 0))}   # documented: 1 means no smoothing
+OUT_OF_RANGE = set()   # (mormol smooth_half_window=0 is documented as 'no smoothing' since repository commit 59445a2)
 
 NEVER = -1.0   # tol that no recorded difference is below (differences are >= 0 or NaN)
 
@@ -760,6 +760,8 @@ def run(ctx):
     dtype_correspondence(ctx)
     axis_correspondence(ctx)
     trace_validation(ctx)
+    from .c01_pad import pad_correspondence, boundary_oracle      # 2-D pad/strip shape model (coq/C01/Pad2D.v) + boundary grid
+    pad_correspondence(ctx)
     from .c01_nested import nested_trace_validation      # two-level loops (coq/C01/Nested.v), harness/c01_nested.py
     nn = nested_trace_validation(ctx, 1 if ctx.tier == 'quick' else 2)
     ctx.note(f'nested-record methods: {nn} calls of brpls / pspline_brpls (1-D, 2-D) / goldindec replayed through the two-level skeleton')
@@ -768,6 +770,10 @@ def run(ctx):
     ctx.note(f'direct oracle: {n} returning calls checked for shape/dtype/per-point keys/record length/finiteness (budget x{budget})')
     from .c01_dtype import dtype_oracle      # first calls on objects / functions WITHOUT x_data (generated axes), non-float64 data
     dtype_oracle(ctx)
+    nb = boundary_oracle(ctx)
+    ctx.note(f'boundary oracle: {nb} returning calls with zero / one / per-axis unequal values of every window-like parameter '
+             '(*half_window*, smooth*, num_smooths, min_length, sections, min_fwhm) and every padding mode (alone and crossed with small '
+             'half windows) of every method that has them, fresh fitter per call; plus the recorded mormol(smooth_half_window=0) witness')
     n = order_oracle(ctx)
     ctx.note(f'order oracle: {n} sorted-vs-unsorted pairs (every catalogue method, 1-D and 2-D, fresh fitters, non-involutive '
              'rotation / interleave / shuffle of x, of z, of both): baseline and per-point params entries equal the sorted-input '
@@ -776,6 +782,15 @@ def run(ctx):
 
 def replay(rep):
     case = rep.get('case') or {}
+    if case.get('kind') == 'oracle-param' and 'variant' in case:
+        from .c01_pad import replay_boundary
+        return replay_boundary({'method': case['method'], 'two_d': case['two_d'], 'kwargs': case['variant'], 'seed': case.get('seed', 0)})
+    if case.get('kind') == 'boundary':
+        from .c01_pad import replay_boundary
+        return replay_boundary(case)
+    if case.get('kind') == 'pad2d':
+        from .c01_pad import replay_pad2d
+        return replay_pad2d(case)
     if case.get('kind') == 'nested':
         from .c01_nested import replay_nested
         return replay_nested(case)
